@@ -31,7 +31,7 @@ type RegProfile struct {
 	TagCap          int    `json:"tag_cap,omitempty"`           // server-imposed page sizes (0 = none)
 	RefCap          int    `json:"ref_cap,omitempty"`
 	CatalogCap      int    `json:"catalog_cap,omitempty"`
-	LinkForm        int    `json:"link_form,omitempty"`
+	LinkForm        int    `json:"link_form,omitempty"`     // 0-5: "last"-based next links in several spellings; 6,7: opaque continuation token
 	ServerFilter    string `json:"server_filter,omitempty"` // "" | header | annotation
 }
 
@@ -88,6 +88,8 @@ type SimRegistry struct {
 	Fired            map[string]int
 	FaultReq         []int // numbers of the requests whose response was tampered with
 	uploadSeq        int
+	PagedReferrers   int                               // referrers listings that continued on another page (workload requests only)
+	issuedTokens     map[string]bool                   // opaque continuation tokens handed out in Link headers
 	BodyRead         map[int]*int                      // bytes consumed from response bodies, per request number
 	AlwaysOCISubject bool                              // contradictory registry: OCI-Subject although the Referrers API is absent
 	PadBody          int                               // referrers/tags/catalog documents are padded with this much whitespace-free filler
@@ -386,6 +388,9 @@ func (s *SimRegistry) route(req *http.Request, body []byte, rec *ReqRecord) simR
 				if a == k {
 					ok = true
 				}
+			}
+			if k == "next_page" && s.issuedTokens[q.Get(k)] {
+				ok = true // the registry's own continuation token, taken from its Link header
 			}
 			if !ok {
 				s.invalid("request %d %s %s: query parameter %q is not defined for this endpoint", n, req.Method, p, k)
@@ -716,6 +721,11 @@ func pageOf(items int, req *http.Request, cap int, lastIndex func(last string) i
 	from = 0
 	if l := q.Get("last"); l != "" {
 		from = lastIndex(l)
+	} else if t := q.Get("next_page"); strings.HasPrefix(t, "p") {
+		// opaque continuation issued by linkHeader forms 6 and 7
+		if v, err := strconv.Atoi(t[1:]); err == nil && v >= 0 {
+			from = v
+		}
 	}
 	size := items
 	if ns := q.Get("n"); ns != "" {
@@ -736,25 +746,34 @@ func pageOf(items int, req *http.Request, cap int, lastIndex func(last string) i
 	return
 }
 
-func (s *SimRegistry) linkHeader(h http.Header, req *http.Request, last string, n string) {
+func (s *SimRegistry) linkHeader(h http.Header, req *http.Request, last string, n string, to int) {
 	u := *req.URL
 	q := url.Values{}
 	for k, v := range req.URL.Query() {
-		if k != "last" && k != "n" {
+		if k != "last" && k != "n" && k != "next_page" {
 			q[k] = v
 		}
 	}
 	if n != "" {
 		q.Set("n", n)
 	}
-	q.Set("last", last)
+	if f := s.Profile.LinkForm % 8; f >= 6 {
+		// a continuation the client cannot interpret: the position travels in a token, not in "last"
+		q.Set("next_page", "p"+strconv.Itoa(to))
+		if s.issuedTokens == nil {
+			s.issuedTokens = map[string]bool{}
+		}
+		s.issuedTokens["p"+strconv.Itoa(to)] = true
+	} else {
+		q.Set("last", last)
+	}
 	u.RawQuery = q.Encode()
 	rel := u.Path + "?" + u.RawQuery
 	abs := u.Scheme + "://" + u.Host + rel
-	switch s.Profile.LinkForm % 6 {
-	case 0:
+	switch s.Profile.LinkForm % 8 {
+	case 0, 6:
 		h.Set("Link", "<"+rel+`>; rel="next"`)
-	case 1:
+	case 1, 7:
 		h.Set("Link", "<"+abs+`>; rel="next"`)
 	case 2:
 		h.Set("Link", "<"+rel+">; rel=next")
@@ -785,7 +804,7 @@ func (s *SimRegistry) listing(req *http.Request, h http.Header, key string, item
 	b, _ := json.Marshal(doc)
 	h.Set("Content-Type", "application/json")
 	if to < len(items) && len(page) > 0 {
-		s.linkHeader(h, req, page[len(page)-1], req.URL.Query().Get("n"))
+		s.linkHeader(h, req, page[len(page)-1], req.URL.Query().Get("n"), to)
 	}
 	if s.ListHook != nil {
 		s.ListHook(key, page)
@@ -824,7 +843,10 @@ func (s *SimRegistry) referrersListing(req *http.Request, h http.Header, refs []
 	b, _ := json.Marshal(idx)
 	h.Set("Content-Type", mtOCIIndex)
 	if to < len(refs) && len(page) > 0 {
-		s.linkHeader(h, req, page[len(page)-1].Digest.String(), req.URL.Query().Get("n"))
+		s.linkHeader(h, req, page[len(page)-1].Digest.String(), req.URL.Query().Get("n"), to)
+		if !simrt.Observing() {
+			s.PagedReferrers++
+		}
 	}
 	if s.ListHook != nil {
 		var ds []string
